@@ -2,8 +2,9 @@ use std::path::PathBuf;
 
 use serde_json::json;
 use vsim::{
-    chan_inline::ChanInline,
+    chan_inline::{threads::ChanThreads, ChanInline},
     ctx_frames::CtxFrames,
+    ctx_probes::CallingContexts,
     ctx_spans::CtxSpans,
     fsim::Fsim,
     choices::Choices,
@@ -34,7 +35,15 @@ fn static_prop(p: &str) -> &'static str {
 /// Engines (with run counts for quick / thorough) that together decide `property`.
 fn engines_for(property: &str) -> Vec<(Box<dyn Engine>, u64, u64)> {
     match property {
-        "C06" | "C07" | "C08" | "C09" => vec![(Box::new(ChanInline), 300_000, 6_000_000)],
+        "C08" => vec![
+            (Box::new(ChanInline), 1_000_000, 20_000_000),
+            (Box::new(ChanThreads), 20_000, 600_000),
+            (Box::new(CallingContexts), 200, 200),
+        ],
+        "C06" | "C07" | "C09" => vec![
+            (Box::new(ChanInline), 1_000_000, 20_000_000),
+            (Box::new(ChanThreads), 20_000, 600_000),
+        ],
         "C03" => vec![(Box::new(CtxFrames), 60_000, 2_000_000)],
         "C04" => vec![(Box::new(CtxSpans { focus: "C04" }), 60_000, 2_000_000)],
         "C05" => vec![(Box::new(CtxSpans { focus: "C05" }), 60_000, 2_000_000)],
@@ -48,6 +57,8 @@ fn engines_for(property: &str) -> Vec<(Box<dyn Engine>, u64, u64)> {
 fn engine_by_name(name: &str) -> Option<Box<dyn Engine>> {
     match name {
         "chan-inline" => Some(Box::new(ChanInline)),
+        "chan-threads" => Some(Box::new(ChanThreads)),
+        "calling-contexts" => Some(Box::new(CallingContexts)),
         "ctx-frames" => Some(Box::new(CtxFrames)),
         "ctx-spans-tree" => Some(Box::new(CtxSpans { focus: "C04" })),
         "ctx-spans-completion" => Some(Box::new(CtxSpans { focus: "C05" })),
